@@ -1218,10 +1218,29 @@ fn c12(ctx: &BoardCtx, p: &Pos, fen: &str, b: &Bitboard) {
     if !bad.is_empty() {
         ctx.viol(format!("decode:{}", bad[0].split(' ').next().unwrap_or("")), fen, json!({"bad": bad}));
     }
-    let written = Fen::from(b).fen;
+    let written_obj = Fen::from(b);
+    let written = written_obj.fen.clone();
     if written != fen {
         let d = fen_field_diff(fen, &written);
         ctx.viol(format!("write:{}", d.join("+")), fen, json!({"written": written}));
+    } else {
+        // the written value used as an object, not only as text: its fields, and reading it back
+        let parts: Vec<&str> = fen.split(' ').collect();
+        let got = [written_obj.get_piece_placement(), written_obj.get_active_color(), written_obj.get_castling_availability(), written_obj.get_en_passant_target_square(), written_obj.get_halfmove_clock(), written_obj.get_fullmove_clock()];
+        let names = ["placement", "side", "rights", "ep", "halfmove", "fullmove"];
+        let bad_fields: Vec<&str> = (0..6).filter(|&i| got[i] != parts[i]).map(|i| names[i]).collect();
+        if !bad_fields.is_empty() {
+            ctx.viol(format!("written_fen_object_fields:{}", bad_fields.join("+")), fen, json!({"fields_of_the_written_object": got, "text": written}));
+        }
+        match guarded(|| Bitboard::from(&written_obj)) {
+            Ok(b2) => {
+                let bad = decode_matches(&b2, p);
+                if !bad.is_empty() {
+                    ctx.viol(format!("read_back_of_written_fen_object:{}", bad[0].split(' ').next().unwrap_or("")), fen, json!({"bad": bad}));
+                }
+            }
+            Err(m) => ctx.viol(format!("panic:read_back_of_written_fen_object:{}", short(&m)), fen, json!({"panic": m})),
+        }
     }
     // 4-field form: clocks default to 0 and 1
     let fen4 = p.to_fen4();
